@@ -209,6 +209,13 @@ Outcome run_workload(const Spec& s, Env& env, int phase, bool retry_failed_call 
       out.output_code = gen::snapshot(code, true);
       // relocate to a fixed base and copy out
       Error relerr = code.relocate_to_base(0x10000000ull);
+      if (relerr == Error::kOutOfMemory && retry_failed_call) {
+        // relocate_to_base() allocates (the address table) before it patches anything: a call that failed for lack of memory
+        // has done nothing yet and is simply made again
+        out.first_error = relerr; env.eh.reset();
+        relerr = code.relocate_to_base(0x10000000ull);
+        sim::count("c15.probe.relocation_repeated_after_failure");
+      }
       if (relerr == Error::kOutOfMemory) { out.first_error = relerr; return out; }
       env.eh.reset();
       size_t size = code.code_size();
